@@ -131,6 +131,10 @@ def r_copyshape(f):
             ok = is_src(lo, 0, 1)
             if srow[0] == "range":
                 ok = ok and is_src(hi, 1, 1)
+                # count form: offsets 0..height that are added to the first source / destination row
+                sh = strip(hi)
+                if not ok and const_usize(strip(lo)) == 0 and sh[0] == "bin" and sh[1].startswith("Sub") and is_src(sh[2], 1, 1) and is_src(sh[3], 0, 1):
+                    ok = True
             else:
                 nn = srow[4]
                 ok = ok and nn[0] == "bin" and nn[1].startswith("Sub") and is_src(nn[2], 1, 1) and is_src(nn[3], 0, 1)
@@ -250,7 +254,22 @@ def r_conv(f):
         R.inst(b0.ident, "copies view.rows() front to back with extend_from_slice (steps %s%s)" % (sorted(set(steps)), "" if b is b0 else ", in helper %s" % b.ident), ok)
         if not ok:
             R.fail(b0.ident, "rows-order", "From<%s> does not append the rows of the given view front to back" % who, b.where())
-        # dimensions come from the getters of the same view
+        # dimensions come from the getters of the same view (struct literal, or a constructor call with named parameters)
+        for _, t2, fn2 in b.calls():
+            cb2 = f.crate_fn_for_call(fn2) if fn2 else None
+            if cb2 is None or cb2.self_head != "TooDee" or cb2.name not in ("from_vec", "from_box", "init", "new"):
+                continue
+            pn2 = cb2.param_names()
+            for ai, a in enumerate(t2["args"]):
+                nm = pn2.get(ai + 1)
+                if nm not in ("num_cols", "num_rows"):
+                    continue
+                e = strip(d.expr(a))
+                okd = e[0] == "call" and e[2] == nm and any(x == ("param", vp) for x in walk(e))
+                n += 1
+                R.inst(b0.ident, "%s(.. %s = view.%s() ..)" % (cb2.name, nm, nm), okd)
+                if not okd:
+                    R.fail(b0.ident, "dims:%s" % nm, "From<%s>: %s receives %s for its parameter %s, not the view's own %s()" % (who, cb2.ident, show(e), nm, nm), b.where(t2["span"]))
         for bi, si, st in b.stmts():
             if st["k"] == "assign" and st["rv"]["k"] == "agg" and st["rv"].get("agg") == "adt" and st["rv"]["adt"].endswith("TooDee"):
                 fnames = st["rv"]["fields_names"]
@@ -388,14 +407,40 @@ def r_sortkey(f):
         if b is None:
             raise AnchorMissing("SortOps::" + core)
         n += 1
-        d = Dfx(b)
+        # the read may sit in a private helper that receives (self, index): map the helper's parameters back to the method's
+        reached = [(b, {i: i for i in range(1, b.arg_count + 1)})]
+        for hb, pm in list(reached):
+            hd = Dfx(hb)
+            for _, t, fn in hb.calls():
+                cb = f.crate_fn_for_call(fn) if fn else None
+                if cb is None or cb.kind == "Closure" or cb.trait_provided or cb.impl_trait or any(cb is x for x, _ in reached) or len(reached) > 4:
+                    continue
+                m2 = {}
+                for ai, a in enumerate(t["args"]):
+                    e = strip(hd.expr(a))
+                    while e[0] in ("ref", "refmut", "deref"):
+                        e = strip(e[1])
+                    if e[0] == "param" and e[1] in pm:
+                        m2[ai + 1] = pm[e[1]]
+                reached.append((cb, m2))
+        def origin(hd, pm, o):
+            e = strip(hd.expr(o))
+            while e[0] in ("ref", "refmut", "deref"):
+                e = strip(e[1])
+            return pm.get(e[1]) if e[0] == "param" else None
+        src = []
+        for hb, pm in reached:
+            hd = Dfx(hb)
+            for _, t, fn in hb.calls():
+                if axis == "row" and fn and fn["path"] == "core::ops::Index::index" and "usize" in " ".join(fn.get("args", [])):
+                    src.append((origin(hd, pm, t["args"][0]), origin(hd, pm, t["args"][1])))
+                if axis == "col" and fn and fn["name"] == "col" and (fn.get("trait") or "").endswith("TooDeeOps"):
+                    src.append((origin(hd, pm, t["args"][0]), origin(hd, pm, t["args"][1])))
         if axis == "row":
-            src = [(t, fn) for _, t, fn in b.calls() if fn and fn["path"] == "core::ops::Index::index" and "usize" in " ".join(fn.get("args", []))]
-            ok = len(src) >= 1 and all(strip(d.expr(t["args"][1])) == ("param", 2) and strip(d.expr(t["args"][0])) in (("param", 1), ("deref", ("param", 1))) for t, fn in src)
+            ok = len(src) >= 1 and all(x == (1, 2) for x in src)
             what = "self[row]"
         else:
-            src = [(t, fn) for _, t, fn in b.calls() if fn and fn["name"] == "col" and (fn.get("trait") or "").endswith("TooDeeOps")]
-            ok = len(src) == 1 and strip(d.expr(src[0][0]["args"][1])) == ("param", 2)
+            ok = len(src) == 1 and src[0] == (1, 2)
             what = "self.col(col)"
         R.inst(b.ident, "s3 the key line is %s of the given index" % what, ok)
         if not ok:
@@ -478,13 +523,42 @@ def r_drainlit(f):
             v = vals.get("v")
             ok_v = False
             why = show(v) if v else "?"
-            if v is not None and v[0] == "call" and v[2] in ("from_raw_parts_mut", "from_raw_parts"):
-                ptr, ln = strip(v[3][0]), strip(v[3][1])
-                ok_ptr = ptr[0] == "call" and ptr[2] == "add" and strip(ptr[3][1]) == ("param", 2) and any(x[0] == "call" and x[2] in ("as_mut_ptr", "as_ptr") for x in walk(ptr[3][0]))
-                # len - num_cols + 1
-                ok_len = ln[0] == "bin" and ln[1].startswith("Add") and const_usize(ln[3]) == 1 and strip(ln[2])[0] == "bin" and strip(ln[2])[1].startswith("Sub") \
-                    and strip(strip(ln[2])[2])[0] == "call" and strip(strip(ln[2])[2])[2] == "len" and is_dim(strip(ln[2])[3], "num_cols")
-                ok_v = ok_ptr and ok_len
+            # the cursor's slice as (offset from the buffer start, length), polynomials over index I, buffer length L, num_cols C
+            from .vgraph import Poly, ZERO as PZ, ONE as P1
+            I_, L_, C_ = Poly.atom("I"), Poly.atom("L"), Poly.atom("C")
+            def poly(e):
+                e = strip(e)
+                if const_usize(e) is not None: return Poly.const(const_usize(e))
+                if e == ("param", 2): return I_
+                if is_dim(e, "num_cols"): return C_
+                if e[0] == "call" and e[2] == "len" and any(x[0] == "field" and x[2] == fi["data"] for x in walk(e)): return L_
+                if e[0] == "bin" and e[1].replace("WithOverflow", "").replace("Unchecked", "") in ("Add", "Sub", "Mul"):
+                    a, c = poly(e[2]), poly(e[3])
+                    if a is None or c is None: return None
+                    return {"Add": a + c, "Sub": a - c, "Mul": a * c}[e[1].replace("WithOverflow", "").replace("Unchecked", "")]
+                return None
+            def region(e):
+                e = strip(e)
+                if e[0] in ("ref", "refmut", "deref"): return region(e[1])
+                if e[0] == "call" and e[2] in ("from_raw_parts_mut", "from_raw_parts"):
+                    ptr, ln = strip(e[3][0]), poly(e[3][1])
+                    off = None
+                    if ptr[0] == "call" and ptr[2] in ("as_mut_ptr", "as_ptr"): off = PZ
+                    elif ptr[0] == "call" and ptr[2] == "add" and any(x[0] == "call" and x[2] in ("as_mut_ptr", "as_ptr") for x in walk(ptr[3][0])): off = poly(ptr[3][1])
+                    return (off, ln) if off is not None and ln is not None else None
+                if e[0] == "call" and e[2] in ("index", "index_mut", "get_unchecked", "get_unchecked_mut") and len(e[3]) == 2:
+                    base, rng = region(e[3][0]), strip(e[3][1])
+                    if base is None or rng[0] != "agg": return None
+                    fs = [poly(x) for x in rng[2]]
+                    if any(x is None for x in fs): return None
+                    if rng[1].endswith("RangeFrom") and len(fs) == 1: return (base[0] + fs[0], base[1] - fs[0])
+                    if rng[1].endswith("RangeTo") and len(fs) == 1: return (base[0], fs[0])
+                    if rng[1].endswith("Range") and len(fs) == 2: return (base[0] + fs[0], fs[1] - fs[0])
+                return None
+            reg = region(v) if v is not None else None
+            if reg is not None:
+                ok_v = reg[0] == I_ and reg[1] == L_ - C_ + P1
+                why = "buffer[%r .. +%r]" % reg
             R.inst(b.ident, "drain cursor = Col { v: buffer[index .. index + len - num_cols + 1], skip: num_cols - 1 }: v=%s skip=%s" % (why[:80], show(sk) if sk else "?"), ok_skip and ok_v)
             if not ok_skip:
                 R.fail(b.ident, "skip", "remove_col builds its column cursor with skip = %s, expected num_cols - 1" % (show(sk, pn) if sk else "?"), b.where(st["span"]))
@@ -537,4 +611,155 @@ def r_drainlit(f):
         R.inst(b2.ident, "delegates to the embedded cursor's size_hint", ok)
         if not ok:
             R.fail(b2.ident, "size_hint", "DrainCol::size_hint calls %s" % names, b2.where())
+    return R, n
+
+
+def _natural_loops(b):
+    """header -> set of blocks (normal edges only, cleanup ignored)"""
+    dom = b.dominators()
+    loops = {}
+    for bi, bl in enumerate(b.blocks):
+        if bl["cleanup"]:
+            continue
+        for s_ in b.succs(bi):
+            if s_ in dom.get(bi, set()):           # back edge bi -> s_
+                body = loops.setdefault(s_, {s_})
+                work = [bi]
+                while work:
+                    x = work.pop()
+                    if x in body:
+                        continue
+                    body.add(x)
+                    work.extend(p for p in b.preds()[x] if not b.blocks[p]["cleanup"])
+    return loops
+
+
+def r_lockstep(f):
+    """R-LOCKSTEP: the row walk of translate_with_wrap.  A cycle-leader rotation visits rows base, base+d, base+2d, .. and
+    the column offset applied at the k-th step is k*col_mid (mod C): the row cursor and the column offset are two induction
+    variables of one loop that must advance in lock-step.  Decided on the CFG: (a) in every loop of the TranslateOps
+    provided methods, any two induction variables (v = v + loop-invariant) that both reach an addressing use (argument of a
+    call) are incremented on exactly the same set of cycles through the loop header; (b) their (re)initialisations sit in
+    the same enclosing loop.  A closed-form rewrite (no induction variable) is simply outside the rule."""
+    R = Result("R-LOCKSTEP")
+    if "translate" not in cfg_features(f):
+        return R, 0
+    n = 0
+    b = f.get("TranslateOps::translate_with_wrap (provided)")
+    if b is None:
+        raise AnchorMissing("TranslateOps::translate_with_wrap")
+    bodies = [b]
+    # private helpers of translate.rs take part as well
+    bodies += [x for x in f.fn_bodies if x is not b and x.kind != "Closure" and x.file == b.file and not x.trait_provided and "tests" not in x.file]
+    for body in bodies:
+        d = Dfx(body)
+        loops = _natural_loops(body)
+        names = {}
+        for v in body.d.get("debug", []):
+            val = v.get("v")
+            if isinstance(val, dict) and "local" in val and not val.get("proj"):
+                names.setdefault(val["local"], v["name"])
+        # which loop (innermost) contains a block
+        def innermost(bi, exclude=None):
+            best = None
+            for h, blk in loops.items():
+                if bi in blk and h != exclude and (exclude is None or blk > loops[exclude] or not (blk <= loops[exclude])):
+                    if exclude is not None and not (loops[exclude] <= blk):
+                        continue
+                    if best is None or len(blk) < len(loops[best]):
+                        best = h
+            return best
+        for h, blk in sorted(loops.items()):
+            # induction variables: whole assignments inside the loop of the form v = v + x
+            inc = {}          # local -> set of blocks holding an increment
+            nested = set()
+            for h2, blk2 in loops.items():
+                if h2 != h and blk2 < blk:
+                    nested |= blk2
+            for bi in blk - nested:
+                for st in body.blocks[bi]["stmts"]:
+                    if st["k"] != "assign" or st["p"]["proj"]:
+                        continue
+                    v = st["p"]["local"]
+                    e = strip(d.rvalue(st["rv"]))
+                    if e[0] == "bin" and e[1].startswith("Add") and (strip(e[2]) == ("var", v) or strip(e[3]) == ("var", v)):
+                        inc.setdefault(v, set()).add(bi)
+            # addressing use: the variable (or an expression over it) is an argument of a call inside the loop
+            addr = set()
+            for bi in blk:
+                t = body.blocks[bi]["term"]
+                if t and t["k"] == "call":
+                    for a in t["args"]:
+                        for x in walk(d.expr(a)):
+                            if x[0] == "var" and x[1] in inc:
+                                addr.add(x[1])
+            ivs = sorted(addr)
+            if len(ivs) < 2:
+                continue
+            succ_in = {x: [y for y in body.succs(x) if y in blk] for x in blk}
+
+            def cycle_avoiding(through, avoid):
+                """is there a cycle header -> .. -> header that passes a block of `through` and no block of `avoid`?"""
+                def reach(src, dst_set, banned):
+                    seen, work = set(), [src]
+                    while work:
+                        x = work.pop()
+                        if x in seen or x in banned:
+                            continue
+                        seen.add(x)
+                        if x in dst_set and x != src or (x in dst_set and src in dst_set and len(seen) > 1):
+                            pass
+                        for y in succ_in[x]:
+                            work.append(y)
+                    return seen
+                for tb in through:
+                    if tb in avoid:
+                        continue
+                    fwd = reach(h, {tb}, set(avoid))
+                    if tb not in fwd and tb != h:
+                        continue
+                    # from tb back to the header: some successor path reaching h
+                    seen, work, back = set(), list(succ_in[tb]), False
+                    while work:
+                        x = work.pop()
+                        if x == h:
+                            back = True
+                            break
+                        if x in seen or x in avoid:
+                            continue
+                        seen.add(x)
+                        work.extend(succ_in[x])
+                    if back:
+                        return True
+                return False
+            for i in range(len(ivs)):
+                for j in range(len(ivs)):
+                    if i == j:
+                        continue
+                    a, c = ivs[i], ivs[j]
+                    n += 1
+                    bad = cycle_avoiding(inc[a], inc[c])
+                    na, nc = names.get(a, "_%d" % a), names.get(c, "_%d" % c)
+                    R.inst(body.ident, "loop at bb%d: every iteration that advances %s also advances %s" % (h, na, nc), not bad)
+                    if bad:
+                        R.fail(body.ident, "lockstep:%s-without-%s" % (na, nc), "%s: the loop advances %s on an iteration that does not advance %s; the two cursors of the row walk (row index, running column offset) must move together, otherwise every later row of the cycle is rotated by the wrong amount" % (body.ident, na, nc), body.where())
+            # (b) initialisations: whole definitions outside the loop -> the innermost loop containing them
+            homes = {}
+            for v in ivs:
+                hs = set()
+                for dd in d.whole_defs(v):
+                    if dd[1] in blk:
+                        continue
+                    cands = [hh for hh, bb_ in loops.items() if dd[1] in bb_ and hh != h]
+                    hs.add(min(cands, key=lambda hh: len(loops[hh])) if cands else None)
+                homes[v] = hs
+            n += 1
+            distinct = {frozenset(x) for x in homes.values()}
+            ok = len(distinct) == 1
+            R.inst(body.ident, "loop at bb%d: the cursors %s are (re)initialised in the same enclosing loop (%s)" % (h, [names.get(v, "_%d" % v) for v in ivs], sorted(str(x) for x in next(iter(distinct)))), ok)
+            if not ok:
+                desc = ",".join("%s@%s" % (names.get(v, "_%d" % v), "/".join(sorted("loop" if x is not None else "entry" for x in homes[v]))) for v in ivs)
+                R.fail(body.ident, "lockstep:init:%s" % desc, "%s: the cursors of the row walk are initialised at different loop depths (%s): one of them is carried over from the previous cycle while the other restarts" % (body.ident, desc), body.where())
+    if n == 0:
+        R.inconc(b.ident, "no loop with two addressing induction variables (walk written in closed form?)")
     return R, n
